@@ -17,7 +17,7 @@ func verifBytes(name string, max int) []byte {
 	n := vrt.Int(name + "_len")
 	vrt.Assume(n >= 0)
 	vrt.Assume(n <= max)
-	return b[:n]
+	return b[:n:n]
 }
 
 // ParseAux over "TG:T:" + up to 5 bytes, every type byte (float text excluded:
@@ -187,4 +187,29 @@ func VerifH_total_unmarshalsam() {
 	_ = r.Bin()
 	_ = r.Strand()
 	vrt.Reach("ok")
+}
+
+// atoi (CIGAR and header lengths) over digit strings of every length up to 20:
+// the power table is indexed by the string length.
+func VerifH_total_atoi() {
+	vrt.LenientFmt(true)
+	b := verifBytes("digits", 20)
+	for _, d := range b {
+		vrt.Assume(d >= '0')
+		vrt.Assume(d <= '9')
+	}
+	n, err := atoi(b)
+	if err == nil {
+		vrt.Assert(n >= 0, "atoi-non-negative")
+	}
+	// and through ParseCigar with an operation appended (lengths that ParseCigar
+	// splits into many 2^28-1 pieces only lengthen the loop)
+	if err == nil && n < 1<<29 {
+		text := append(append([]byte(nil), b...), 'M')
+		c, err := ParseCigar(text)
+		if err == nil {
+			_, _ = c.Lengths()
+		}
+	}
+	vrt.Reach("done")
 }
